@@ -17,6 +17,11 @@ func c16Impl(in []int64) []int64 {
 	kind := in[0]
 	var out []int64
 	ops := in[1:]
+	for i := 0; i+2 < len(ops); i += 3 { // Add / Grow of a huge value would allocate the whole set: not a case (the shrinker can produce one)
+		if (ops[i] == 0 || ops[i] == 5) && (ops[i+2] < 0 || ops[i+2] > 1<<18) {
+			return []int64{BADCASE}
+		}
+	}
 	switch kind {
 	case 0: // setz.Bits
 		var s [2]setz.Bits
@@ -259,6 +264,11 @@ func c16Gen(c *Ctx) {
 			case 7, 8:
 				a = int64(r.Intn(6))
 			}
+			// Remove / Contains with huge arguments: a negative token is converted by uint(a) to a value with the top
+			// bit set (2^64 + a); also 2^60-sized positive ones.  (Add / Grow would have to allocate such a set.)
+			if kind != 2 && (code == 1 || code == 2) && r.Intn(12) == 0 { // (the dsz model walks to the word index: not for huge values)
+				a = []int64{-1, -2, -64, -65, -(1 << 60), -(1 << 32), 1 << 60, 1<<60 + 63, 1 << 40, 1<<32 + 1}[r.Intn(10)]
+			}
 			in = append(in, code, tgt, a)
 			kinds[code] = true
 			t.C.Count("op", c16Names[code])
@@ -266,6 +276,23 @@ func c16Gen(c *Ctx) {
 		in = append(in, 3, 0, 0, 6, 0, 0, 3, 1, 0, 6, 1, 0)
 		t.Try(fmt.Sprintf("random-kind%d", kind), in, nops >= 3 && len(kinds) >= 2)
 	})
+}
+
+// shrinking must not turn Remove/Contains of a huge value into Add/Grow of it (which would have to allocate the set)
+func c16Shrink(in []int64) [][]int64 {
+	var out [][]int64
+	for _, c := range ShrinkOps(1, 3)(in) {
+		ok := true
+		for i := 1; i+2 < len(c); i += 3 {
+			if (c[i] == 0 || c[i] == 5) && (c[i+2] < 0 || c[i+2] > 1<<18) {
+				ok = false
+			}
+		}
+		if ok {
+			out = append(out, c)
+		}
+	}
+	return out
 }
 
 func c16Describe(in []int64) string {
@@ -278,6 +305,6 @@ func c16Describe(in []int64) string {
 
 func init() {
 	Register(&Prop{ID: "C16", Num: 16, SpecMode: "equal", Gen: c16Gen, Impl: c16Impl,
-		Shrink: ShrinkOps(1, 3), Describe: c16Describe,
+		Shrink: c16Shrink, Describe: c16Describe,
 		Rule: "exhaustive: every op sequence up to the tier's length over values {0,1,62,63,64,65,127,128,129} (word boundaries) for setz.Bits, setz.Bitmap, dsz.Bits, followed by Len+Iter; random: 5-60 ops over two sets of different word counts mixing element and bulk ops. distinct = distinct op sequence; non-trivial = at least 2 operations of at least 2 kinds before the final observation"})
 }
